@@ -87,6 +87,7 @@ type Sched struct {
 	evaluating    bool
 	settleCond    func() bool
 	settleSince   int
+	settleClock   int64
 	settleExtra   int
 	consec        int
 	sameOp        int
@@ -340,8 +341,24 @@ func (s *Sched) pick(self *Thread) *Thread {
 			s.Horizon = true
 			return nil
 		}
+		if s.quiesceWaiter != nil && s.settleCond != nil && !s.quiescent && s.settleSince < 0 {
+			s.evaluating = true
+			if s.settleCond() {
+				s.settleSince = s.Steps
+				s.settleClock = s.clock
+			}
+			s.evaluating = false
+		}
 		en := s.enabledSet(self)
 		if len(en) == 0 {
+			// a driver waiting in WaitSettled whose condition already holds does not wait for timers
+			// that lie far in the future (a peer-supplied timeout of decades must not stall the check)
+			if w := s.quiesceWaiter; w != nil && s.settleCond != nil && !s.quiescent && s.settleSince >= 0 {
+				if next := s.nextDeadline(); next >= 0 && next > s.settleClock+int64(10*time.Minute) {
+					s.quiescent = true
+					continue
+				}
+			}
 			if !s.advanceClock() {
 				if s.quiesceWaiter != nil && !s.quiescent {
 					// nothing can move any more: release the driver thread waiting for quiescence
@@ -355,13 +372,7 @@ func (s *Sched) pick(self *Thread) *Thread {
 		}
 		// release a driver waiting in WaitSettled once its condition has held for the step budget
 		if w := s.quiesceWaiter; w != nil && s.settleCond != nil && !s.quiescent {
-			if s.settleSince < 0 {
-				s.evaluating = true
-				if s.settleCond() {
-					s.settleSince = s.Steps
-				}
-				s.evaluating = false
-			} else if s.Steps-s.settleSince >= s.settleExtra {
+			if s.settleSince >= 0 && s.Steps-s.settleSince >= s.settleExtra {
 				s.quiescent = true
 				s.Spinning = true
 				s.Steps++
@@ -486,6 +497,16 @@ func (s *Sched) fingerprint(next *Thread) {
 		mix(s.StateHash())
 	}
 	s.Finger[h] = struct{}{}
+}
+
+func (s *Sched) nextDeadline() int64 {
+	var next int64 = -1
+	for _, tm := range s.timers {
+		if !tm.dead && (next < 0 || tm.deadline < next) {
+			next = tm.deadline
+		}
+	}
+	return next
 }
 
 // advanceClock moves virtual time to the earliest pending deadline and fires everything due.
